@@ -1,7 +1,7 @@
 #!/bin/sh
 # Regression over /verif/selftest/refactors/*.diff (behaviour-preserving changes): each is applied to a scratch copy of
-# /repo's package (PYVC_REPO) and every check is run there; any VIOLATION / UNDECIDED / CHECKER-ERROR line is a defect
-# of the checks.  /repo is not touched.
+# /repo's package (PYVC_REPO) and every check is run there; a VIOLATION or CHECKER-ERROR line is a defect of the checks
+# (exit 1); UNDECIDED lines are listed: they are not alarms, but proofs lost to the refactoring.  /repo is not touched.
 cd "$(dirname "$0")/.." || exit 3
 fail=0
 for f in selftest/refactors/*.diff; do
@@ -10,8 +10,11 @@ for f in selftest/refactors/*.diff; do
   cp -r /repo/gym_gridverse "$D/"
   if ! (cd "$D" && patch -s -p1 < "/verif/$f"); then echo "$id PATCH-DOES-NOT-APPLY"; rm -rf "$D"; fail=1; continue; fi
   out=$(PYVC_EVIDENCE_DIR="$D/evidence" PYVC_REPO="$D" ./check all 2>&1)
-  bad=$(echo "$out" | grep -E '^(VIOLATION|UNDECIDED|CHECKER-ERROR)' | cut -c1-220)
-  if [ -z "$bad" ]; then echo "$id quiet"; else echo "$id ALARM"; echo "$bad"; fail=1; fi
+  bad=$(echo "$out" | grep -E '^(VIOLATION|CHECKER-ERROR)' | cut -c1-220)
+  und=$(echo "$out" | grep -E '^UNDECIDED' | cut -c1-160 | sort -u)
+  if [ -n "$bad" ]; then echo "$id ALARM"; echo "$bad"; fail=1
+  elif [ -n "$und" ]; then echo "$id no alarm, but not everything decided:"; echo "$und"
+  else echo "$id quiet"; fi
   rm -rf "$D"
 done
 exit $fail
